@@ -15,17 +15,24 @@ RULE = ("TLC explores the complete state graph of spec/ShapeMachine.tla for each
 CLASSES = ["ConvexPolyhedron", "Polyhedron", "ConvexSpheropolyhedron", "Polygon", "ConvexPolygon", "ConvexSpheropolygon"]
 
 
-def jobs_for(ctx, cls, basename, want, limit):
+def jobs_for(ctx, cls, basename, want, limit, walks=None):
     flags = me.flags_for(cls, basename)
     if flags["HasCircum"] is None or flags["HasIn"] is None:
         ctx.unclear += 1
         return [], 0
     edges = me.explore(ctx, cls, flags, "LambdasQ" if ctx.tier == "quick" else "LambdasT", 3 if ctx.tier == "quick" else 6)
     hs, total = me.histories(edges, want, limit, ctx.seed)
-    return [{"cls": cls, "base": basename, "hist": h, "seed": ctx.seed} for h in hs], total
+    jobs = [{"cls": cls, "base": basename, "hist": h, "seed": ctx.seed} for h in hs]
+    if walks:
+        n, length = walks
+        sel = [e for e in edges if want(e)]
+        for w in me.random_walks(sel, n, length, ctx.seed * 31 + len(basename)):
+            if w:
+                jobs.append({"cls": cls, "base": basename, "hist": w, "seed": ctx.seed, "walk": True})
+    return jobs, total
 
 
-def run_machine(ctx, want, limit_quick, limit_thorough, classes=CLASSES):
+def run_machine(ctx, want, limit_quick, limit_thorough, classes=CLASSES, walks=None):
     quick = ctx.tier == "quick"
     todo = []
     for cls in classes:
@@ -37,16 +44,18 @@ def run_machine(ctx, want, limit_quick, limit_thorough, classes=CLASSES):
     from ..pool import _init
     _init()
     with ThreadPoolExecutor(max_workers=4) as ex:
-        res = list(ex.map(lambda cb: jobs_for(ctx, cb[0], cb[1], want, limit_quick if quick else limit_thorough), todo))
+        res = list(ex.map(lambda cb: jobs_for(ctx, cb[0], cb[1], want, limit_quick if quick else limit_thorough, walks), todo))
     jobs = [j for js, _ in res for j in js]
     ctx.extra["transitions_in_graphs"] = sum(t for _, t in res)
-    ctx.extra["transitions_replayed"] = len(jobs)
-    ctx.exhaustive = len(jobs) == ctx.extra["transitions_in_graphs"]
+    ctx.extra["transitions_replayed"] = sum(1 for j in jobs if not j.get("walk"))
+    ctx.extra["random_walks_replayed"] = sum(1 for j in jobs if j.get("walk"))
+    ctx.exhaustive = ctx.extra["transitions_replayed"] == ctx.extra["transitions_in_graphs"]
     results = pmap(me.run_history, jobs, chunksize=8)
     import json
     for job, mism in zip(jobs, results):
         last = job["hist"][-1]
-        ctx.case((job["cls"], job["base"], json.dumps(last["pre"], sort_keys=True), json.dumps(last["ret"], sort_keys=True)),
+        ctx.case((job["cls"], job["base"], json.dumps(last["pre"], sort_keys=True), json.dumps(last["ret"], sort_keys=True),
+                  len(job["hist"]) if job.get("walk") else 0),
                  nontrivial=len(job["hist"]) > 1,
                  sample={"class": job["cls"], "base": job["base"],
                          "history": [h["ret"] for h in job["hist"]], "expected_post_state": last["post"]})
@@ -56,7 +65,7 @@ def run_machine(ctx, want, limit_quick, limit_thorough, classes=CLASSES):
 
 
 def run(ctx):
-    run_machine(ctx, lambda e: True, 220, 100000)
+    run_machine(ctx, lambda e: True, 220, 100000, walks=(3, 30) if ctx.tier == "quick" else (40, 120))
     return ctx.finish(rule=RULE, assumptions=[
         "histories longer than the graph's diameter are covered by the abstraction (equal abstract states behave alike) "
         "and, in the thorough tier, by the larger scale-factor alphabet",
